@@ -60,7 +60,7 @@ ASSUMPTIONS = [
 ]
 REQUIRED = ["relabel_pairs", "commute_pairs", "sampler_pairs", "state_comparisons", "branch_map_comparisons",
             "sample_comparisons", "hook_steps"]
-WATCHDOG = {"quick": 1500, "thorough": 5400}
+WATCHDOG = {"quick": 2400, "thorough": 7200}
 
 EPS = float(np.finfo(np.float64).eps)
 C_TOL = 1e3
@@ -1379,7 +1379,9 @@ def run_shard(spec):
     rng = np.random.default_rng([int(spec["seed"]), 16, int(spec["shard"])])
     ctx = Ctx()
     t0 = time.time()
-    budget = 200 if spec["tier"] == "quick" else 1500
+    # generous: a cold numba cache on a loaded machine costs minutes before the first program finishes; a shard that is cut
+    # short before half of its programs ran makes the run inconclusive instead of silently thinner (wall-clock never decides)
+    budget = 1200 if spec["tier"] == "quick" else 4000
     kind = spec["kind"]
     done = 0
     for i in range(int(spec["programs"])):
@@ -1411,8 +1413,11 @@ def run_shard(spec):
                 ctx.samples.append({"kind": "commute", "sim": doc["sim"], "d": doc["d"], "exchanges": n,
                                     "ins": [[x["t"], x.get("m")] for x in doc["ins"]]})
     ctx.c["max_dev_over_tol"] = float(ctx.c["max_dev_over_tol"])
-    return {"evaluations": ctx.evals, "classes": sorted(ctx.classes), "violations": ctx.violations,
-            "counters": ctx.c, "samples": ctx.samples, "observations": sorted(ctx.obs)[:25]}
+    out = {"evaluations": ctx.evals, "classes": sorted(ctx.classes), "violations": ctx.violations,
+           "counters": ctx.c, "samples": ctx.samples, "observations": sorted(ctx.obs)[:25]}
+    if done < 0.5 * int(spec["programs"]):
+        out["harness_errors"] = ["shard %s ran only %d of %d programs within its time budget" % (spec["name"], done, int(spec["programs"]))]
+    return out
 
 
 def replay(case):
